@@ -140,6 +140,36 @@ def shrink(prop, sc, monitor, want_property, chunk_seed, budget=120):
     return D.Scenario(steps, sc.variant, sc.users, sc.groups, sc.name + "(shrunk)")
 
 
+def aftermath(sc):
+    """The scenario followed by a broad exercise of whatever state it left behind (new peers add, fetch, get with every matcher
+    kind, change, remove, wait for deadlines, leave).  Used when model and implementation merely DIFFER on a scenario: if the
+    difference is a latent corruption, this is where it becomes a failure of the property with a concrete input."""
+    from .daemon import obj
+    n = 1 + max([st[1] for st in sc.steps if st[0] in ("connect", "connect_http")] + [0])
+    a, b = n, n + 1
+    paths = ["a", "a/b", "A/B", "m", "x/y/z", "zzprobe", ""]
+    st = [("quiesce",), ("connect", a, "raw", "local6"), ("connect", b, "ws", "remote6"),
+          ("msg", b, obj(method="fetch", params=obj(id="probe"), id=900))]
+    for i, p_ in enumerate(paths):
+        st.append(("msg", a, obj(method="add", params=(obj(path=p_, value=i) if i % 3 else obj(path=p_)), id=901 + i)))
+    for i, rule in enumerate([obj(), obj(path=obj(equals="a/b", caseInsensitive=True)), obj(path=obj(startsWith="a")), obj(path=obj(contains="/", endsWith="b")),
+                              obj(path=obj(containsAllOf=["a", "b"])), obj(path=obj(equalsNot="m"))]):
+        st.append(("msg", b, obj(method="get", params=rule, id=920 + i)))
+    for i, p_ in enumerate(paths):
+        st.append(("msg", a, obj(method="change", params=obj(path=p_, value=[i]), id=930 + i)))
+        st.append(("msg", b, obj(method=("set" if i % 3 else "call"), params=obj(path=p_, value=1), id=940 + i)))
+    st += [("advance", 6 * 10 ** 9), ("quiesce",)]
+    for i, p_ in enumerate(paths):
+        st.append(("msg", a, obj(method="remove", params=obj(path=p_), id=950 + i)))
+    live = []
+    for s_ in sc.steps:
+        if s_[0] in ("connect", "connect_http"):
+            live.append(s_[1])
+    st += [("msg", b, obj(method="unfetch", params=obj(id="probe"), id=960)), ("quiesce",)]
+    st += [("eof", c) for c in (a, b)] + [("quiesce",)]
+    return D.Scenario(list(sc.steps) + st, sc.variant, sc.users, sc.groups, sc.name + "+aftermath")
+
+
 def _work(job):
     prop, idx, kind, payload, monitor_name, gen_kw = job
     from . import monitors as M
@@ -233,6 +263,16 @@ def run_property(ctx, out, prop, monitor_name, n_quick, n_thorough, gen_kw, dire
             out.violation("scenario could not be run: " + r["error"], {"property": prop, "broken": "correspondence machinery", "detail": r}, no_input=True)
             continue
         sc = D.Scenario.from_json(r["sc"])
+        if not r["pf"]:
+            # only the correspondence broke: search for an input on which the property itself fails, starting from this scenario
+            try:
+                ext = aftermath(sc)
+                rx = run_one(ext, r["idx"])
+                pfx, tfx = failures_of(prop, ext, rx, monitor)
+                if pfx:
+                    sc, r = ext, dict(r, pf=pfx, tf=tfx)
+            except Exception:
+                pass
         want_prop = bool(r["pf"])
         small = shrink(prop, sc, monitor, want_prop, r["idx"])
         res = run_one(small, r["idx"])
